@@ -176,6 +176,16 @@ CLAIMS['C17'] = dict(
          'concave polygons numerically or unbiasedness (the +1 lookup convention depends on raysect find_index).',
     technique='exact rational algebra with index substitution (loop term vs closing term), structural wiring checks')
 
+CLAIMS['C11'] = dict(
+    text='Decides structural necessary conditions: in both SART variants the value stored as the new solution is clipped at zero on '
+         'every path (non-negativity); the update rule is exactly x + (relaxation/rho_j) sum_i (W_ij/L_i)(b_i - yhat_i) over rows '
+         'with L_i != 0 for cells with rho_j > 0 and x otherwise, minus beta (Lap x)_j in both branches of the constrained variant, '
+         'with rho, L, yhat and the penalty computed from the documented sums/products (exact normal forms); the two variants are '
+         'identical modulo the penalty, with the documented stopping rule and convergence measure; NNLS/LSTSQ solve the stacked system '
+         '[W; alpha L] x = [b; 0], both NNLS arguments are divided by one scalar that is undone on the returned norm, and the solver '
+         'output is returned unmodified. Does not decide optimality/KKT (delegated to scipy/numpy), fixed points or convergence.',
+    technique='exact normal forms of the update expressions per branch, sibling diff modulo a named term, structural wiring of the stacked system')
+
 # ---- everything not claimed above is pending / not applicable
 _pending = 'check not built yet in this session (see DESIGN.md build order); not claimed until it is'
 for _p in ['C%02d' % i for i in range(1, 21)]:
